@@ -12,6 +12,7 @@ import Driver.Util
 import RotoV.Model.LayoutOps
 import RotoV.Model.ValueSpec
 import Driver.C02Ctor
+import Driver.C02Mir
 
 namespace Driver.C02
 open RotoV
@@ -166,6 +167,7 @@ def handle (args : List String) : String :=
     | _ => "bad-type"
   | "spec" :: rest => RotoV.ValueSpec.handle rest
   | "ctor" :: rest => Driver.C02Ctor.handle rest
+  | "mirmatch" :: rest => Driver.C02Mir.handle rest
   | _ => "bad-op"
 
 end Driver.C02
